@@ -73,12 +73,26 @@ const longWait = 30 * time.Second
 // proven responsive twice, a second apart: a goroutine spawned now dials a private loopback listener and gets a byte
 // echoed, three times in a row, each within 100 ms.  What lal still owes then (a goroutine it spawned seconds ago
 // dialling loopback, closing a socket, queueing a notification) is the same kind of work, so it is stuck, not slow.
-// On an overloaded machine the probes fail and the full longWait applies.
+// On an overloaded machine the probes fail, the full longWait applies and its expiry alone is never a violation (the
+// case is abandoned).
 type patience struct {
 	start     time.Time
 	notBefore time.Duration
 	lastProbe time.Time
 	ok        int
+	proven    bool // the wait ended because the process proved responsive, not because the hard limit passed
+}
+
+// abandonV is returned instead of a violation when a wait ran into the hard limit without the process ever proving
+// responsive (machine stalled / overloaded): the case is abandoned and counted, never reported.
+var abandonV = &pbt.Violation{Sig: "abandoned"}
+
+// verdict turns an expired wait into the violation v - if the expiry is corroborated by responsiveness.
+func (p *patience) verdict(v *pbt.Violation) *pbt.Violation {
+	if p.proven {
+		return v
+	}
+	return abandonV
 }
 
 func newPatience(notBefore time.Duration) *patience {
@@ -101,7 +115,8 @@ func (p *patience) over() bool {
 	} else {
 		p.ok = 0
 	}
-	return p.ok >= 2
+	p.proven = p.ok >= 2
+	return p.proven
 }
 
 // patient polls cond until it holds or patience is over.
@@ -416,6 +431,15 @@ func hasMarker(ms []rtmpref.Msg, mk []byte) int {
 }
 
 func runPush(c PushCase) *pbt.Violation {
+	v := runPush0(c)
+	if v == abandonV {
+		pbt.Count("push/abandoned:machine-unresponsive", 1)
+		return nil
+	}
+	return v
+}
+
+func runPush0(c PushCase) *pbt.Violation {
 	w := &pushWorld{name: "c17push"}
 	var addrs []string
 	for _, ts := range c.Targets {
@@ -484,7 +508,7 @@ func runPush(c PushCase) *pbt.Violation {
 				if v := s.PanicViolation(); v != nil {
 					return v
 				}
-				return pbt.V("push/no-session-for-target", "publisher %d (%s) was accepted but target %d saw no push connection within %v", pi, ps.Kind, ti, pt.waited())
+				return pt.verdict(pbt.V("push/no-session-for-target", "publisher %d (%s) was accepted but target %d saw no push connection within %v", pi, ps.Kind, ti, pt.waited()))
 			}
 			if v := w.incoming(ti, t, cn, wantName, pi); v != nil {
 				return v
@@ -518,7 +542,7 @@ func runPush(c PushCase) *pbt.Violation {
 				if got {
 					pt = newPatience(0)
 				} else if pt.over() {
-					return pbt.V("push/failed-target-not-retried", "publisher %d: targets %v refused their attempt, the harness ticked the group for %v (%d ticks) but no new attempt arrived", pi, w.pending(), pt.waited(), w.tick)
+					return pt.verdict(pbt.V("push/failed-target-not-retried", "publisher %d: targets %v refused their attempt, the harness ticked the group for %v (%d ticks) but no new attempt arrived", pi, w.pending(), pt.waited(), w.tick))
 				}
 			}
 			for i := 0; i < ps.Ticks; i++ {
@@ -535,7 +559,7 @@ func runPush(c PushCase) *pbt.Violation {
 			if g := s.SM.GetGroup("", w.name); g != nil {
 				pt = newPatience(0)
 				if !patient(pt, func() bool { return g.OutSessionNum() == nEst }) {
-					return pbt.V("push/session-count-differs", "publisher %d: %d of %d targets answered publish, but %v later lal counts %d push sessions on the stream", pi, nEst, len(w.targets), pt.waited(), g.OutSessionNum())
+					return pt.verdict(pbt.V("push/session-count-differs", "publisher %d: %d of %d targets answered publish, but %v later lal counts %d push sessions on the stream", pi, nEst, len(w.targets), pt.waited(), g.OutSessionNum()))
 				}
 			}
 			// ---- light content check: headers + a marker reach every established target ---------------------
@@ -560,7 +584,7 @@ func runPush(c PushCase) *pbt.Violation {
 					var mk []byte
 					for mk == nil {
 						if len(sent) > 0 && pt.over() {
-							return pbt.V("push/media-not-forwarded", "publisher %d: target %d is established but none of the %d markers sent by the publisher arrived within %v (%d media messages received; last: %s)", pi, ti, len(sent), pt.waited(), len(t.live.MediaSnapshot()), describe(t.live.MediaSnapshot()))
+							return pt.verdict(pbt.V("push/media-not-forwarded", "publisher %d: target %d is established but none of the %d markers sent by the publisher arrived within %v (%d media messages received; last: %s)", pi, ti, len(sent), pt.waited(), len(t.live.MediaSnapshot()), describe(t.live.MediaSnapshot())))
 						}
 						w.marker++
 						m := []byte{0xAF, 1, 0xC1, 0x17, byte(w.marker >> 16), byte(w.marker >> 8), byte(w.marker), 0x55}
@@ -618,13 +642,13 @@ func runPush(c PushCase) *pbt.Violation {
 						return pbt.V("push/session-outlives-publisher", "publisher %d: target %d answered publish after the publisher had left and lal attached the push session to the stream, which has no publisher (out sessions = %d)", pi, ti, g.OutSessionNum())
 					}
 					if pt.over() {
-						return pbt.V("push/session-outlives-publisher", "publisher %d: target %d answered publish after the publisher had left; the push session was still open %v later", pi, ti, pt.waited())
+						return pt.verdict(pbt.V("push/session-outlives-publisher", "publisher %d: target %d answered publish after the publisher had left; the push session was still open %v later", pi, ti, pt.waited()))
 					}
 				}
 			} else if t.established {
 				pt := newPatience(0)
 				if !patient(pt, t.live.PeerClosed) {
-					return pbt.V("push/session-outlives-publisher", "publisher %d left but the push session to target %d was still open %v later", pi, ti, pt.waited())
+					return pt.verdict(pbt.V("push/session-outlives-publisher", "publisher %d left but the push session to target %d was still open %v later", pi, ti, pt.waited()))
 				}
 			}
 			t.live.Close()
@@ -923,7 +947,7 @@ func newHTTPAPI(s *inproc.Server) *httpAPI {
 	return nil
 }
 
-func (h *httpAPI) do(method, path string, body interface{}, out interface{}) {
+func (h *httpAPI) do(method, path string, body interface{}, out interface{}) bool {
 	var rd io.Reader
 	if body != nil {
 		b, _ := json.Marshal(body)
@@ -935,14 +959,16 @@ func (h *httpAPI) do(method, path string, body interface{}, out interface{}) {
 	}
 	resp, err := h.cl.Do(req)
 	if err != nil {
-		lalclient.Harness("http api %s: %v", path, err)
+		return false
 	}
 	defer resp.Body.Close()
 	b, _ := io.ReadAll(resp.Body)
-	if err := json.Unmarshal(b, out); err != nil {
-		lalclient.Harness("http api %s: undecodable answer %q: %v", path, b, err)
-	}
+	return json.Unmarshal(b, out) == nil
 }
+
+// apiUnreachable is the code the HTTP variant reports when the request did not get an answer it could decode
+// (transport trouble on a loaded machine): the case is abandoned.
+const apiUnreachable = -2
 
 func (h *httpAPI) start(req base.ApiCtrlStartRelayPullReq) (int, string) {
 	// fields equal to the documented defaults are omitted, so the handler's defaults are what takes effect
@@ -954,17 +980,23 @@ func (h *httpAPI) start(req base.ApiCtrlStartRelayPullReq) (int, string) {
 		m["auto_stop_pull_after_no_out_ms"] = req.AutoStopPullAfterNoOutMs
 	}
 	var r base.ApiCtrlStartRelayPullResp
-	h.do("POST", "/api/ctrl/start_relay_pull", m, &r)
+	if !h.do("POST", "/api/ctrl/start_relay_pull", m, &r) {
+		return apiUnreachable, ""
+	}
 	return r.ErrorCode, r.Data.SessionId
 }
 func (h *httpAPI) stop(name string) (int, string) {
 	var r base.ApiCtrlStopRelayPullResp
-	h.do("GET", "/api/ctrl/stop_relay_pull?stream_name="+url.QueryEscape(name), nil, &r)
+	if !h.do("GET", "/api/ctrl/stop_relay_pull?stream_name="+url.QueryEscape(name), nil, &r) {
+		return apiUnreachable, ""
+	}
 	return r.ErrorCode, r.Data.SessionId
 }
 func (h *httpAPI) kick(name, id string) int {
 	var r base.ApiCtrlKickSessionResp
-	h.do("POST", "/api/ctrl/kick_session", map[string]string{"stream_name": name, "session_id": id}, &r)
+	if !h.do("POST", "/api/ctrl/kick_session", map[string]string{"stream_name": name, "session_id": id}, &r) {
+		return apiUnreachable
+	}
 	return r.ErrorCode
 }
 
@@ -1086,7 +1118,7 @@ func (w *pullWorld) expectAttempt(started time.Time, apiID string) *pbt.Violatio
 			w.abandon("attempt-ended-before-it-reached-the-origin")
 			return nil
 		}
-		return pbt.V("pull/no-attempt", "%s: the rules demand a connection attempt (enabled, no input, none in flight, budget %d with %d used, consumers %d) but the origin saw none within %v and no attempt was reported as stopped", w.step, w.m.budget, w.m.used-1, w.m.subs, pt.waited())
+		return pt.verdict(pbt.V("pull/no-attempt", "%s: the rules demand a connection attempt (enabled, no input, none in flight, budget %d with %d used, consumers %d) but the origin saw none within %v and no attempt was reported as stopped", w.step, w.m.budget, w.m.used-1, w.m.subs, pt.waited()))
 	}
 	at := &attempt{n: w.nAttempts, conn: oc, started: started, outcome: w.nextOutcome(), apiID: apiID}
 	if at.outcome == ocRefuse {
@@ -1110,13 +1142,13 @@ func (w *pullWorld) stubTrouble(at *attempt, what string, err error) *pbt.Violat
 	if v := w.s.PanicViolation(); v != nil {
 		return v
 	}
-	if time.Since(at.started) > w.timeout()/2 {
-		at.conn.Close()
+	el := time.Since(at.started)
+	at.conn.Close()
+	if el > w.timeout()/2 || !responsive() {
 		w.abandon("harness-too-slow-for-pull-timeout")
 		return nil
 	}
-	lalclient.Harness("stub %s with lal's pull session failed %v after the trigger: %v", what, time.Since(at.started), err)
-	return nil
+	return pbt.V("pull/session-broken-before-play", "%s: attempt %d: the pull session's connection failed during the %s, %v after the trigger (pull timeout %v): %v", w.step, at.n, what, el.Round(time.Millisecond), w.timeout(), err)
 }
 
 // attemptEnded: an attempt that never attached is over; lal reports it with exactly one stop notification.
@@ -1134,7 +1166,7 @@ func (w *pullWorld) attemptEnded(at *attempt, why string) *pbt.Violation {
 		if v := w.s.PanicViolation(); v != nil {
 			return v
 		}
-		return pbt.V("pull/attempt-end-not-reported", "%s: attempt %d ended (%s) but no stop notification arrived within %v (pull timeout %v)", w.step, at.n, why, time.Since(at.started).Round(time.Millisecond), w.timeout())
+		return pt.verdict(pbt.V("pull/attempt-end-not-reported", "%s: attempt %d ended (%s) but no stop notification arrived within %v (pull timeout %v)", w.step, at.n, why, time.Since(at.started).Round(time.Millisecond), w.timeout()))
 	}
 	starts, stops := w.pullEvents()
 	if len(starts) > w.nStarts {
@@ -1154,14 +1186,14 @@ func (w *pullWorld) sessionClosed(reason string) *pbt.Violation {
 	at := w.attached
 	pt := newPatience(0)
 	if !closedPatient(at.conn, pt) {
-		return pbt.V("pull/session-not-closed/"+reason, "%s: the attached pull session %s must be closed (%s) but its connection to the origin was still open %v later", w.step, at.id, reason, pt.waited())
+		return pt.verdict(pbt.V("pull/session-not-closed/"+reason, "%s: the attached pull session %s must be closed (%s) but its connection to the origin was still open %v later", w.step, at.id, reason, pt.waited()))
 	}
 	w.attached = nil
 	w.m.attached = false
 	w.nStops++
 	pt = newPatience(0)
 	if !w.waitEvents(w.nStarts, w.nStops, pt) {
-		return pbt.V("pull/stop-not-reported", "%s: pull session %s was closed (%s) but no stop notification arrived within %v", w.step, at.id, reason, pt.waited())
+		return pt.verdict(pbt.V("pull/stop-not-reported", "%s: pull session %s was closed (%s) but no stop notification arrived within %v", w.step, at.id, reason, pt.waited()))
 	}
 	_, stops := w.pullEvents()
 	if got := stops[w.nStops-1]; got != at.id {
@@ -1241,7 +1273,7 @@ func (w *pullWorld) resolve() *pbt.Violation {
 			if v := w.s.PanicViolation(); v != nil {
 				return v
 			}
-			return pbt.V("pull/answer-ignored", "%s: the origin answered play for attempt %d but lal neither attached nor stopped the session within %v", w.step, at.n, pt.waited())
+			return pt.verdict(pbt.V("pull/answer-ignored", "%s: the origin answered play for attempt %d but lal neither attached nor stopped the session within %v", w.step, at.n, pt.waited()))
 		}
 		time.Sleep(200 * time.Microsecond)
 	}
@@ -1258,7 +1290,7 @@ func (w *pullWorld) resolve() *pbt.Violation {
 			got = sb.WaitFor(func(r lalclient.Rec) bool { return bytes.Equal(r.Payload, mk) }, 100*time.Millisecond) >= 0
 		}
 		if !got {
-			return pbt.V("pull/media-not-delivered", "%s: a marker streamed by the origin through pull session %s did not reach subscriber %d (%s)", w.step, w.attached.id, i, sb.Kind)
+			return pt.verdict(pbt.V("pull/media-not-delivered", "%s: a marker streamed by the origin through pull session %s did not reach subscriber %d (%s)", w.step, w.attached.id, i, sb.Kind))
 		}
 	}
 	if oc == ocPlayClose {
@@ -1284,7 +1316,8 @@ func (w *pullWorld) doAct(a Act) *pbt.Violation {
 			if v := s.PanicViolation(); v != nil {
 				return v
 			}
-			lalclient.Harness("subscriber refused: %v", cc.JoinErr())
+			w.abandon("subscriber-join-failed") // admission of subscribers is not C17's subject
+			return nil
 		}
 		w.created(t0, t1)
 		w.subs = append(w.subs, cc)
@@ -1392,6 +1425,10 @@ func (w *pullWorld) doAct(a Act) *pbt.Violation {
 		if v := s.PanicViolation(); v != nil {
 			return v
 		}
+		if code == apiUnreachable {
+			w.abandon("http-api-unreachable")
+			return nil
+		}
 		w.created(t0, t1)
 		w.m.apiEnabled = true
 		w.m.budget, w.m.autoStop = w.c.Budget, w.c.AutoStop
@@ -1416,6 +1453,10 @@ func (w *pullWorld) doAct(a Act) *pbt.Violation {
 		code, id := w.api.stop(w.name)
 		if v := s.PanicViolation(); v != nil {
 			return v
+		}
+		if code == apiUnreachable {
+			w.abandon("http-api-unreachable")
+			return nil
 		}
 		if !w.m.exists {
 			if code != base.ErrorCodeGroupNotFound {
@@ -1447,6 +1488,10 @@ func (w *pullWorld) doAct(a Act) *pbt.Violation {
 		code := w.api.kick(w.name, id)
 		if v := s.PanicViolation(); v != nil {
 			return v
+		}
+		if code == apiUnreachable {
+			w.abandon("http-api-unreachable")
+			return nil
 		}
 		if !w.m.exists {
 			if code != base.ErrorCodeGroupNotFound {
@@ -1496,6 +1541,15 @@ func last(s []string) string {
 }
 
 func runPull(c PullCase) *pbt.Violation {
+	v := runPull0(c)
+	if v == abandonV {
+		pbt.Count("pull/abandoned:machine-unresponsive", 1)
+		return nil
+	}
+	return v
+}
+
+func runPull0(c PullCase) *pbt.Violation {
 	origin, err := stub.NewRtmpStub()
 	if err != nil {
 		lalclient.Harness("stub listen: %v", err)
